@@ -22,6 +22,7 @@ LEX = {
     "c_assign": b" x := \"1\"",
     "m_go": b"go test ./...", "m_tpl": b"echo {{.VAR_A}}", "m_x": b"x", "m_pipe": b'echo "a b" | wc -l', "m_adj": b"cp{{.X}}y z", "m_flag": b"rm -rf ./bin",
     "m_env": b"GOOS=linux go build", "m_two": b"echo {{.A}} {{.B}}", "m_semi": b"cd dir; ls", "m_pct": b"date +%Y-%m-%d", "m_bs": b"grep '\\d+' x", "m_open": b"echo {{", "m_close": b"ab }} y", "m_adj2": b"echo {{.A}}{{.B}}", "m_adj3": b"run {{.A}}{{.B}}{{.C}} x",
+    "m_cont": b"echo a \\", "m_cont2": b"cp x \\",          # a command line that ends in a backslash is a command like any other
     "f_join": b"join", "f_exec": b"exec",
 }
 NAMES = [k for k in LEX if k.startswith("n_")]
